@@ -146,6 +146,15 @@ CHECKS = {
              'on-refusal, unchanged / converted arguments and non-settable excluded parameters are judged against an evaluator '
              'written for exactly that alphabet. One function object is also registered without a context on purpose.',
         note='trusted: frag_ok / schema_ok and the ANNOT table in vmon/monitors/c14.py (checked against pydantic 2.13 lax mode)'),
+    'C11': dict(
+        category='exploration', design_ref='DESIGN.md §3 C11',
+        technique='runtime monitor: pairwise differential execution of the sync and async twins on identical inputs',
+        text='The request corpora of C01-C03 (x batch limits) and the middleware / handler configurations of C12 run on the sync '
+             'dispatcher, the async dispatcher with coroutines and the async dispatcher with plain functions; C09 retry sessions '
+             'with tracers, C07 call programs x notations and C08 scripted response documents run on the sync and the async '
+             'client. Response documents, code tuples, execution logs, event sequences, wire documents, outcomes, tracer events '
+             'and sleep arguments are compared pairwise; no model is involved, so any one-sided edit of the duplicated code shows.',
+        note='trusted: only the comparison code; a defect present in both twins is invisible here (other checks cover that)'),
 }
 
 NOT_BUILT_REASON = 'no check registered yet in this round (monitor under construction, see DESIGN.md §3)'
